@@ -168,4 +168,136 @@ theorem drvResp_dead_rx (s : St) (f : Frame) (c : Nat) (ch : Chan) (hr : s.drv =
   simp only [Conn.step, hne, if_false, hf, hl]
   rw [routeSearch_dead_rx ({ s with pos := s.pos + 1 } : St) c ch f hc hdead hop]
 
+/-! ### item 5: a time-out and the scrubs that follow leave another registered operation alone -/
+
+theorem drvScrub_eq (s : St) (x : Nat) (rest : List Nat) (hr : s.drv = .running) (hq : s.scrubQ = x :: rest) :
+    Conn.step s .drvScrub = some (({ s with
+      scrubQ := rest
+      ops := dropSenderOpt s.ops (lookup s.resultmap x)
+      resultmap := erase s.resultmap x
+      searchmap := erase s.searchmap x
+      inUse := eraseId s.inUse x } : St), .none) := by
+  simp [Conn.step, hr, hq]
+
+/-- `n` scrub steps of a running driver: an operation registered in the result map under an ID that is
+not being scrubbed keeps its entry and is not touched; the scrubbed IDs are released; results stay -/
+theorem scrubs_keep (k j : Nat) (oj : Op) : ∀ (n : Nat) (s : St), RouteInv s → s.drv = .running →
+    (k, j) ∈ s.resultmap → s.ops[j]? = some oj → k ∉ s.scrubQ → n ≤ s.scrubQ.length →
+    RouteInv (Conn.run s (List.replicate n .drvScrub)) ∧ (Conn.run s (List.replicate n .drvScrub)).drv = .running ∧
+    (k, j) ∈ (Conn.run s (List.replicate n .drvScrub)).resultmap ∧
+    (Conn.run s (List.replicate n .drvScrub)).ops[j]? = some oj ∧
+    (Conn.run s (List.replicate n .drvScrub)).scrubQ = s.scrubQ.drop n ∧
+    (∀ x ∈ s.scrubQ.take n, x ∉ (Conn.run s (List.replicate n .drvScrub)).inUse) ∧
+    (∀ x ∈ (Conn.run s (List.replicate n .drvScrub)).inUse, x ∈ s.inUse) ∧
+    ResKeep s.ops (Conn.run s (List.replicate n .drvScrub)).ops
+  | 0, s, hri, hr, hmem, hoj, _, _ => by
+    exact ⟨hri, hr, hmem, hoj, rfl, fun x hx => by simp at hx, fun x hx => hx, ResKeep.refl _⟩
+  | n + 1, s, hri, hr, hmem, hoj, hk, hn => by
+    cases hq : s.scrubQ with
+    | nil => rw [hq] at hn; simp at hn
+    | cons x rest =>
+      have hstep := drvScrub_eq s x rest hr hq
+      have hnext : next s .drvScrub = ({ s with
+          scrubQ := rest
+          ops := dropSenderOpt s.ops (lookup s.resultmap x)
+          resultmap := erase s.resultmap x
+          searchmap := erase s.searchmap x
+          inUse := eraseId s.inUse x } : St) := by
+        simp only [next, hstep]
+      have hkx : k ≠ x := by
+        intro e; apply hk; rw [hq, e]; simp
+      have hri1 := hri.step .drvScrub hstep
+      have hlook : lookup s.resultmap (x : Int) ≠ some j := by
+        intro hl
+        obtain ⟨n', hm', hn'⟩ := lookup_some hl
+        obtain ⟨o1, ho1, hid1⟩ := hri.rm _ hm'
+        obtain ⟨o2, ho2, hid2⟩ := hri.rm _ hmem
+        simp only at ho1 ho2 hid1 hid2
+        rw [ho2] at ho1; cases ho1
+        have : n' = x := by exact_mod_cast hn'
+        exact hkx (by rw [← hid2, hid1, this])
+      have ih := scrubs_keep k j oj n _ hri1 hr
+        (mem_erase_of hmem (by simp only; exact_mod_cast hkx))
+        (dropSenderOpt_put s.ops _ j oj hoj hlook)
+        (by intro h; apply hk; rw [hq]; simp [h])
+        (by rw [hq] at hn; simp at hn; exact hn)
+      rw [List.replicate_succ, run_cons, hnext]
+      obtain ⟨i1, i2, i3, i4, i5, i6, i7, i8⟩ := ih
+      refine ⟨i1, i2, i3, i4, ?_, ?_, ?_, ?_⟩
+      · rw [i5]; simp
+      · intro y hy
+        simp only [List.take_succ_cons, List.mem_cons] at hy
+        rcases hy with e | hy
+        · intro hin
+          have := i7 y hin
+          simp only at this
+          rw [e] at this
+          exact not_mem_eraseId _ _ this
+        · exact i6 y hy
+      · intro y hy
+        exact (mem_eraseId.mp (i7 y hy)).1
+      · exact (resKeep_dropSenderOpt s.ops _).trans i8
+
+/-- in a reachable state a key of the result map is looked up as its entry -/
+theorem lookup_of_mem {s : St} (hu : Uniq s) (ha : Acct s) {k j : Nat} (hmem : (k, j) ∈ s.resultmap) :
+    lookup s.resultmap (k : Int) = some j := by
+  cases hl : lookup s.resultmap (k : Int) with
+  | none => exact absurd rfl (lookup_none hl _ hmem)
+  | some j' => rw [lookup_is hu ha hl hmem rfl]
+
+/-- an operation that is past allocation, has not returned and whose reply slot is empty is outstanding -/
+theorem live_of_waiting {s : St} (hp : Pend s) (ha : Acct s) {i : Nat} {o : Op} (ho : s.ops[i]? = some o)
+    (hph : o.phase ≠ .allocated) (hm : o.mail = .empty) : Live s i o := by
+  cases hq : o.phase with
+  | allocated => exact absurd hq hph
+  | queued => exact Or.inr (Or.inl (ha.phaseQ i o ho hq))
+  | taken => exact Or.inr (Or.inr (Or.inl (hp i o ho hq hm)))
+
+/-- Operation `i` times out at a poll and the driver then works off its scrub queue (the scrubs queued
+before, then `i`'s): another operation `j` that is waiting for its reply, and whose ID nobody asked to
+scrub, is still registered under its ID, untouched, afterwards; `i` has returned the time-out and
+its ID is released. -/
+theorem timeout_then_scrubs (s : St) (hp : Pend s) (hu : Uniq s) (ha : Acct s) (hri : RouteInv s)
+    (i j : Nat) (oi oj : Op) (d : Nat) (hij : i ≠ j)
+    (hoj : s.ops[j]? = some oj) (hjp : oj.phase = .taken) (hjm : oj.mail = .empty)
+    (hoi : s.ops[i]? = some oi) (hres : oi.res = none) (hph : oi.phase ≠ .allocated) (him : oi.mail = .empty)
+    (hd : oi.deadline = some d) (hle : d ≤ s.now) (hr : s.drv = .running) (hnq : oj.id ∉ s.scrubQ) :
+    (Conn.run s (.poll i :: List.replicate (s.scrubQ.length + 1) .drvScrub)).drv = .running ∧
+    (Conn.run s (.poll i :: List.replicate (s.scrubQ.length + 1) .drvScrub)).scrubQ = [] ∧
+    (∃ oi' : Op, (Conn.run s (.poll i :: List.replicate (s.scrubQ.length + 1) .drvScrub)).ops[i]? = some oi' ∧
+      oi'.res = some .timeout) ∧
+    oi.id ∉ (Conn.run s (.poll i :: List.replicate (s.scrubQ.length + 1) .drvScrub)).inUse ∧
+    (Conn.run s (.poll i :: List.replicate (s.scrubQ.length + 1) .drvScrub)).ops[j]? = some oj ∧
+    (oj.id, j) ∈ (Conn.run s (.poll i :: List.replicate (s.scrubQ.length + 1) .drvScrub)).resultmap := by
+  have hstep : Conn.step s (.poll i) = some (({ s with
+      ops := s.ops.set i { oi with res := some .timeout }
+      scrubQ := s.scrubQ ++ [oi.id]
+      chans := dropRxOf s.chans oi.chan } : St), .res (some .timeout)) := by
+    simp [Conn.step, hoi, hres, hph, him, hd, hle, hr]
+  have hnext : next s (.poll i) = ({ s with
+      ops := s.ops.set i { oi with res := some .timeout }
+      scrubQ := s.scrubQ ++ [oi.id]
+      chans := dropRxOf s.chans oi.chan } : St) := by
+    simp only [next, hstep]
+  have hmem : (oj.id, j) ∈ s.resultmap := hp j oj hoj hjp hjm
+  have hne : oi.id ≠ oj.id := by
+    intro e
+    exact hij (hu.uniq i j oi oj hoi hoj (live_of_waiting hp ha hoi hph him) (Or.inr (Or.inr (Or.inl hmem))) e)
+  have hri1 := hri.step (.poll i) hstep
+  have hoj1 : (s.ops.set i { oi with res := some .timeout })[j]? = some oj := by
+    rw [get_set _ j hoi, if_neg (fun e => hij e.symm)]; exact hoj
+  have hoi1 : (s.ops.set i { oi with res := some .timeout })[i]? = some { oi with res := some .timeout } := by
+    rw [get_set _ i hoi, if_pos rfl]
+  obtain ⟨_, k2, k3, k4, k5, k6, _, k8⟩ := scrubs_keep oj.id j oj (s.scrubQ.length + 1) _ hri1 hr hmem hoj1
+    (by simp only [List.mem_append, List.mem_singleton]; rintro (h | h); exact hnq h; exact hne h.symm)
+    (by simp)
+  rw [run_cons, hnext]
+  refine ⟨k2, ?_, ?_, ?_, k4, k3⟩
+  · rw [k5]; simp
+  · obtain ⟨o', ho', hk⟩ := k8 i _ hoi1
+    exact ⟨o', ho', hk rfl⟩
+  · apply k6
+    rw [List.take_of_length_le (by simp)]
+    simp
+
 end Ldap3V.Conn
